@@ -1,6 +1,8 @@
 // Driver shared by all property binaries: rapidcheck-driven generation, replay, fork-isolated shrinking,
 // std::exit trap, stdout/stderr capture, per-case watchdog, statistics for the evidence files.
+#ifndef VF_FUZZ
 #include <rapidcheck.h>
+#endif
 
 #include <fcntl.h>
 #include <poll.h>
@@ -613,6 +615,7 @@ static void arm_watchdog(double seconds)
 	setitimer(ITIMER_REAL, &it, nullptr);
 }
 
+#ifndef VF_FUZZ
 static rc::Gen<std::vector<uint64_t>> words_gen(size_t L)
 {
 	return [L](const rc::Random& random, int) {
@@ -623,6 +626,8 @@ static rc::Gen<std::vector<uint64_t>> words_gen(size_t L)
 		return rc::shrinkable::just(std::move(v));
 	};
 }
+
+#endif
 
 static void tally(ClauseStats& st, const Outcome& o, const std::vector<uint64_t>& words, const std::string& clname)
 {
@@ -646,6 +651,7 @@ static void tally(ClauseStats& st, const Outcome& o, const std::vector<uint64_t>
 		st.excluded[e]++;
 }
 
+#ifndef VF_FUZZ
 static int mode_run(const std::vector<std::string>& clause_names, uint64_t seed, double n_scale, bool thorough, int max_size, const std::string& out_path, const std::string& fail_dir, int shard, int nshards)
 {
 	std::map<std::string, ClauseStats> stats;
@@ -780,6 +786,8 @@ static int mode_run(const std::vector<std::string>& clause_names, uint64_t seed,
 	of << js.str();
 	return rc_exit;
 }
+
+#endif
 
 static int mode_replay(const std::string& path, bool quiet)
 {
@@ -917,6 +925,84 @@ static int mode_shrink(const std::string& path, const std::string& out_path, lon
 }
 }	// namespace vf
 
+#ifdef VF_FUZZ
+// ---------------------------------------------------------------------------------------------------------------
+// libFuzzer entry: the input bytes are the choice sequence (byte 0 selects the clause, the rest are little-endian 64-bit words)
+namespace vf
+{
+static long g_fz_execs = 0, g_fz_pass = 0, g_fz_discard = 0, g_fz_nontrivial = 0;
+static std::string g_fz_out = ".";
+static int g_fz_real_out = 1, g_fz_real_err = 2;
+static void fuzz_write_stats()
+{
+	std::ofstream f(g_fz_out + "/fuzzstats." + std::to_string((long) getpid()) + ".json");
+	f << "{\"execs\":" << g_fz_execs << ",\"pass\":" << g_fz_pass << ",\"discard\":" << g_fz_discard << ",\"nontrivial\":" << g_fz_nontrivial << "}\n";
+}
+}	// namespace vf
+extern "C" int LLVMFuzzerInitialize(int*, char***)
+{
+	using namespace vf;
+	if(const char* vd = getenv("VERIF_DIR"))
+		g_verif_dir = vd;
+	if(const char* o = getenv("VF_FUZZ_OUT"))
+		g_fz_out = o;
+	g_fz_real_out	 = dup(1);
+	g_fz_real_err	 = dup(2);
+	detail::g_out_fd = g_fz_real_out;
+	int fd			 = memfd_create("vf_capture", 0);
+	detail::g_cap_fd = fd;
+	atexit(fuzz_write_stats);
+	return 0;
+}
+extern "C" int LLVMFuzzerTestOneInput(const uint8_t* data, size_t size)
+{
+	using namespace vf;
+	static std::vector<const Clause*> usable;
+	if(usable.empty())
+	{
+		const char* want = getenv("VF_FUZZ_CLAUSE");
+		for(auto& c : registry())
+			if(!c.isolate && (!want || c.name == want))
+				usable.push_back(&c);
+		if(usable.empty())
+			return 0;
+	}
+	if(size < 1)
+		return 0;
+	const Clause& cl = *usable[data[0] % usable.size()];
+	std::vector<uint64_t> words((size - 1 + 7) / 8, 0);
+	if(size > 1)
+		memcpy(words.data(), data + 1, size - 1);
+	// library output goes to the capture file while the case runs; libFuzzer's own output stays on the real stderr
+	fflush(stdout);
+	dup2(detail::g_cap_fd, 1);
+	dup2(detail::g_cap_fd, 2);
+	Outcome o = run_inproc(cl, words, 100, false);
+	fflush(stdout);
+	dup2(g_fz_real_out, 1);
+	dup2(g_fz_real_err, 2);
+	g_fz_execs++;
+	if(o.kind == Outcome::PASS)
+	{
+		g_fz_pass++;
+		if(o.nontrivial)
+			g_fz_nontrivial++;
+	}
+	else if(o.kind == Outcome::DISCARD)
+		g_fz_discard++;
+	else
+	{
+		std::vector<uint64_t> w2(words.begin(), words.begin() + (long) std::min(words.size(), std::max<size_t>(o.consumed, 1)));
+		char name[64];
+		snprintf(name, sizeof name, "/fuzzfail.%ld.%ld.case", (long) getpid(), g_fz_execs);
+		write_case_text(g_fz_out + name, cl, w2, 100, o.msg);
+		fuzz_write_stats();
+		out("FUZZ-FAILURE " + g_fz_out + name + " :: " + o.msg + "\n");
+		abort();
+	}
+	return 0;
+}
+#else
 int main(int argc, char** argv)
 {
 	using namespace vf;
@@ -937,6 +1023,24 @@ int main(int argc, char** argv)
 		return 0;
 	}
 	detail::capture_init();
+	if(has("--fuzz-input"))
+	{
+		// convert a raw libFuzzer input (byte 0: clause among the non-isolated ones, rest: little-endian words) into a case file
+		std::ifstream f(opt("--fuzz-input", ""), std::ios::binary);
+		std::string raw((std::istreambuf_iterator<char>(f)), std::istreambuf_iterator<char>());
+		std::vector<const Clause*> usable;
+		for(auto& c : registry())
+			if(!c.isolate)
+				usable.push_back(&c);
+		if(raw.empty() || usable.empty())
+			return 2;
+		const Clause& cl = *usable[(unsigned char) raw[0] % usable.size()];
+		std::vector<uint64_t> words((raw.size() - 1 + 7) / 8, 0);
+		if(raw.size() > 1)
+			memcpy(words.data(), raw.data() + 1, raw.size() - 1);
+		write_case_text(opt("--out", "fuzz.case"), cl, words, 100, "converted from libFuzzer input " + opt("--fuzz-input", ""));
+		return 0;
+	}
 	if(has("--replay"))
 		return mode_replay(opt("--replay", ""), has("--quiet"));
 	if(has("--shrink"))
@@ -960,3 +1064,4 @@ int main(int argc, char** argv)
 	out("usage: --list | --run all|c1,c2 --seed S --tier quick|thorough --scale X --shard k --nshards K --out F --fail-dir D --cur F | --replay F | --shrink F --out F2\n");
 	return 2;
 }
+#endif
